@@ -6,11 +6,14 @@
                       q_xx = V' D⁺D⁺ V'ᵀ, q_bb = U E Uᵀ, q_bx = U D⁺ V'ᵀ, lindep i = (inv_W i = 0),
                       where V' (what `min_subset_x` leaves) satisfies `Final`.
 
-  `SvdCert sq tol m n A d` is the per-run CERTIFICATE: `A = U diag(W) Vᵀ`, `VᵀV = 1`, orthonormal
-  non-null columns of `U`, every singular value exactly 0 or above the threshold (`Unambiguous`).
-  That `SVD::svd()` produces such factors is NOT proved (convergence and accuracy of the
-  Golub–Reinsch iteration); it is checked numerically on every run on the real code
-  (tools/props/svd_cert.py).
+  `SvdCert sq tol m n A d`: `A = U diag(W) Vᵀ`, `VᵀV = 1`, orthonormal non-null columns of `U`,
+  every singular value exactly 0 or above the threshold (`Unambiguous`).  Its three algebraic
+  fields are PROVED for the factors the model of `SVD::svd()` returns (`Svd.decompose_cert`,
+  `Svd.decompose_svdCert` in Lemmas/Ls/SvdDecompCert.lean: `decompose m n A = .ok d` and
+  `Unambiguous sq tol n (vget d.W)` give `SvdCert sq tol m n A d`), so the structure is now an
+  intermediate notion, not a hypothesis of the property theorems (`Props/*/SvdDecompose.lean`).
+  NOT proved: that `decompose` returns (convergence of the QR iteration) and IEEE rounding; for
+  `double` the factors of the real code are checked numerically on every run (tools/props/svd_cert.py).
 -/
 import Gama.Lemmas.Ls.SvdModel
 
